@@ -87,8 +87,8 @@ def _leaf_ok(kind, x, e, scale=None):
             return abs(x) <= 1e-12
         return sx == s and close_rat(x * x, n, d)
     if kind == "fq_ssqrt":
-        sign, num, den = e
-        if _is_any(num) or _is_any(den):
+        sign, num, den = e[:3]
+        if _is_any(num) or _is_any(den) or _open_at_zero_variance(e):
             return True
         want2 = fq_t2(num, den)
         if math.isnan(want2) or want2 < 0:
@@ -102,8 +102,8 @@ def _leaf_ok(kind, x, e, scale=None):
         sx = (x > 0) - (x < 0)
         return sx == sign and abs(x * x - want2) <= 1e-9 * max(1.0, want2)
     if kind == "tail_t":
-        (sign, num, den), (dfn, dfd) = e
-        if _is_any(num) or _is_any(den):
+        (sign, num, den), (dfn, dfd) = e[0][:3], e[1]
+        if _is_any(num) or _is_any(den) or _open_at_zero_variance(e[0]):
             return True
         want = t_tail(fq_t2(num, den), fq_value(dfn, dfd))
         if math.isnan(want):
@@ -144,6 +144,19 @@ def _shape(x):
         return list(np.shape(x))
     except Exception:
         return "?"
+
+
+def _flat(x):
+    out = []
+    for v in x:
+        out.extend(_flat(v) if isinstance(v, list) else [v])
+    return out
+
+
+def _open_at_zero_variance(q):
+    """a formal quotient marked "cancelling" whose variance is exactly 0 (Pairwise.tla)"""
+    return (len(q) > 3 and q[3] == "cancelling" and not _is_any(q[2])
+            and q[2][0] == 0 and q[2][1] != 0)
 
 
 def fq_t2(num, den):
@@ -204,6 +217,10 @@ def compare(observed, expected):
         return errs
     if kind == "pwidx":
         alpha, only_larger = expected["alpha"], expected["only_larger"]
+        if all(len(row) == 0 for row in v) and isinstance(obs, list) and not _flat(obs):
+            # no column is displayed: there is no index set to report.  (That the empty
+            # array then has shape (0,) rather than (n_rows, 0) is C05's finding, not C13's.)
+            return errs
         if not isinstance(obs, list) or len(obs) != len(v):
             errs.append(((), "shape %s" % (_shape(obs),), "rows %d" % len(v)))
             return errs
@@ -216,7 +233,10 @@ def compare(observed, expected):
                 for c in cands:
                     if c["self"]:
                         continue
-                    sign, num, den = c["t"]
+                    sign, num, den = c["t"][:3]
+                    if _open_at_zero_variance(c["t"]):
+                        may.add(c["pos"])
+                        continue
                     p = t_tail(fq_t2(num, den), fq_value(c["df"][0], c["df"][1]))
                     if math.isnan(p) or (only_larger and not sign < 0):
                         continue
